@@ -105,6 +105,14 @@ BENIGN = [
 ]
 
 
+# Not a negative control for every property: answering keep-alives with a
+# forced write from inside the read phase bypasses pyCraft's deliberate
+# hold-back of write errors until the server's disconnect packet has been
+# read, so a kick (keep-alive, disconnect, close) is reported as an error.
+# That is seeded change C11c, and C11 is right to object.
+NOT_FOR = {'keepalive-answer-forced': {'C11'}}
+
+
 def apply(root, edits):
     for rel, old, new in edits:
         p = os.path.join(root, rel)
@@ -135,6 +143,8 @@ def main():
             env = dict(os.environ, VERIF_REPO=root,
                        VERIF_REPLAY_DIR=os.path.join(tmp, 'replays'))
             for cid in checks:
+                if cid in NOT_FOR.get(name, ()):
+                    continue
                 t0 = time.time()
                 cmd = [os.path.join(VERIF, 'check'), cid, '--no-evidence']
                 if a.runs:
